@@ -716,7 +716,8 @@ fn fold(kind: &str, xs: &Ex, init: &Ex, upd: &Ex, proj: Option<&Ex>) -> Ex {
 }
 
 fn conds() -> Vec<Ex> {
-    [".", ".a?", ".[]?", "(true, false)", "(.[0]? // false)"].iter().map(|s| atom(s)).collect()
+    // several with more than one output: the update evaluator must thread all branch updates through one value
+    [".", ".a?", ".[]?", "(true, false)", "(.[0]? // false)", "(false, true, true)", "(.[]? | . == 1)"].iter().map(|s| atom(s)).collect()
 }
 fn xss() -> Vec<Ex> {
     ["(0, \"a\")", ".[]?", "empty", "(1, error)"].iter().map(|s| atom(s)).collect()
@@ -845,8 +846,41 @@ fn seqs(total: usize, memo: &mut HashMap<usize, Vec<Val>>) -> Vec<Vec<Val>> {
     out
 }
 
-const US: [&str; 6] = ["empty", ".", "(., 0)", ".+1", "error", "[.]"];
+/// update filters: no output, one, two (first ≠ last), three distinct (first / last / all differ), one then an
+/// error (taking the first output vs collecting all), an error, a growing one
+const US: [&str; 8] = ["empty", ".", "(., 0)", ".+1", "error", "[.]", "(1, ., 2)", "(., error)"];
 const WS: [&str; 4] = ["(1, 2)", "empty", ".", ".[]?"];
+
+/// updates through a conditional whose condition yields several outputs, with the manual's reading
+/// (`reduce c as $c (.; if $c then f |= u else g |= u end)`) as reference where it is a plain rewriting
+const MULTI_COND: [&str; 12] = [
+    "[if (true, false) then .a else .b end |= 1]",
+    "[if (true, false) then .a else .b end += 1]",
+    "[if (true, false) then .a else .b end = (1, 2)]",
+    "[select(.[]?) |= 5]",
+    "[select((true, true)) |= (., 0)]",
+    "[if .[]? then .[0]? else .[1]? end |= (., 0)]",
+    "[if (false, true, true) then . else .[]? end |= [.]]",
+    "[(.[]? | select((true, false, true))) |= (1, ., 2)]",
+    "[if (true, false) then .[0]? else .a? end |= empty]",
+    "[if (true, error) then .a else .b end |= 1]",
+    "[if (.[]? | . == 1) then .[0]? else .[-1]? end //= 3]",
+    "[del(if (true, false) then .a else .b end)]",
+];
+const MULTI_COND_REF: [Option<&str>; 12] = [
+    Some("[reduce (true, false) as $c (.; if $c then .a |= 1 else .b |= 1 end)]"),
+    Some("[reduce (true, false) as $c (.; if $c then .a |= .+1 else .b |= .+1 end)]"),
+    Some("[(1, 2) as $w | reduce (true, false) as $c (.; if $c then .a |= $w else .b |= $w end)]"),
+    Some("[reduce .[]? as $c (.; if $c then . |= 5 else empty |= 5 end)]"),
+    Some("[reduce (true, true) as $c (.; if $c then . |= (., 0) else . end)]"),
+    Some("[reduce .[]? as $c (.; if $c then .[0]? |= (., 0) else .[1]? |= (., 0) end)]"),
+    Some("[reduce (false, true, true) as $c (.; if $c then . |= [.] else .[]? |= [.] end)]"),
+    Some("[.[]? |= reduce (true, false, true) as $c (.; if $c then . |= (1, ., 2) else . end)]"),
+    Some("[reduce (true, false) as $c (.; if $c then .[0]? |= empty else .a? |= empty end)]"),
+    Some("[reduce (true, error) as $c (.; if $c then .a |= 1 else .b |= 1 end)]"),
+    None,
+    Some("[reduce (true, false) as $c (.; if $c then .a |= empty else .b |= empty end)]"),
+];
 
 struct Emit {
     shard: usize,
@@ -1013,6 +1047,13 @@ fn derived(em: &mut Emit, ps: &mut Progs, vals: &[Val]) {
     for v in vals {
         if !em.mine() {
             continue;
+        }
+        // conditions with several outputs inside `if` / `select` in update position (round 2)
+        for (i, prog) in MULTI_COND.iter().enumerate() {
+            em.corr(ps, prog, v);
+            if let Some(b) = MULTI_COND_REF[i] {
+                em.oracle(ps, "upd-multi-cond", prog, b, v, true);
+            }
         }
         for prog in ["[paths]", "[..]", "[path(..)]", "keys_unsorted", "[paths(. == 1)]", "[getpath([\"a\"], [0], [\"a\", 0], [])]",
                      "[setpath([\"a\"]; 7)]", "[setpath([0]; 7)]", "[delpaths([[\"a\"], [0]])]", "[delpaths([path(..)])]",
